@@ -1884,6 +1884,21 @@ stoMarkCountTest(int i)
  * Return the number of busy pieces marked.
  */
 
+/*
+ * The marker recurses once per piece unless the pointer sits in the last word
+ * of the piece that holds it, so a long chain of pieces linked through any
+ * other word used to run the C stack out.  Beyond StoMarkDepthMax levels a
+ * piece (it carries its mark already) is put aside and scanned from the top
+ * level instead.  If there is no room to put it aside we keep recursing, as
+ * before.
+ */
+#define StoMarkDepthMax		4000
+#define StoMarkPendingMax	256
+
+static int	stoMarkDepth;
+static int	stoMarkPendingCount;
+static struct { Pointer *lo, *hi; } stoMarkPending[StoMarkPendingMax];
+
 local int
 stoGcMark(void)
 {
@@ -1910,6 +1925,8 @@ stoGcMark(void)
 	}
 
 	stoGcMarkedFree = 0;
+	stoMarkDepth	    = 0;
+	stoMarkPendingCount = 0;
 	n  = 0;
 
 	for ( ; (*mm)->use != OSMEM_END; mm++) {
@@ -2051,6 +2068,15 @@ stoGcMark(void)
 			assert(false); /*mem type is silly*/
 			break;
 		}
+	}
+
+	/* Now the pieces that were too deep to scan when they were met. */
+	while (stoMarkPendingCount > 0) {
+		Pointer	*lo, *hi;
+		stoMarkPendingCount--;
+		lo = stoMarkPending[stoMarkPendingCount].lo;
+		hi = stoMarkPending[stoMarkPendingCount].hi;
+		n += stoGcMarkRange(lo, hi, (int) 0);
 	}
 
 	/* Emit pointer classification table? */
@@ -2372,7 +2398,17 @@ TailRecursion:
 			}
 		}
 
-		n += stoGcMarkRange(plo, phi, (int) 0);
+		if (stoMarkDepth >= StoMarkDepthMax &&
+		    stoMarkPendingCount < StoMarkPendingMax) {
+			stoMarkPending[stoMarkPendingCount].lo = plo;
+			stoMarkPending[stoMarkPendingCount].hi = phi;
+			stoMarkPendingCount++;
+		}
+		else {
+			stoMarkDepth++;
+			n += stoGcMarkRange(plo, phi, (int) 0);
+			stoMarkDepth--;
+		}
 
 		/* Pointer classification */
 		if (DEBUG(sto)) {stoMarkArea = oldStoMarkArea;}
